@@ -272,6 +272,21 @@ def build(spec, overrides=None, only_subgraph=None, with_signatures=True):
         ft.buffer = len(m.buffers) - 1
       buffer_of[(si, ti)] = ft.buffer
       g.tensors.append(ft)
+    if out_si == 0:
+      # zero-element constants (an empty data vector, as an exporter writes for
+      # e.g. tf.zeros([0])); nothing reads them
+      for k in range(int(spec.get('empty_consts', 0))):
+        ft = S.TensorT()
+        ft.name = ('empty_const_%d' % k).encode()
+        ft.shape = np.array([0], np.int32)
+        ft.type = TT.FLOAT32
+        ft.quantization = S.QuantizationParametersT()
+        ft.hasRank = True
+        b = S.BufferT()
+        b.data = np.zeros([0], np.uint8)
+        m.buffers.append(b)
+        ft.buffer = len(m.buffers) - 1
+        g.tensors.append(ft)
     for ni in emit_order(sg):
       n = sg['nodes'][ni]
       o = S.OperatorT()
